@@ -100,117 +100,11 @@ def outcome(text, **kw):
     return ("ok", c, LOG.n)
 
 
-def us(td):
-    return (td.days * 86400 + td.seconds) * 10**6 + td.microseconds
+from .observe_src import *  # noqa: F401,F403,E402 - us, observe, obs_*, strip_times, to_model_shape, all_events
+from . import observe_src as _o  # noqa: E402
+
+OBSERVE_SRC = open(_o.__file__, encoding="utf-8").read()
 
 
 def query(chart, tick):
-    return us(chart.sync_track.bpm_events.timestamp_at_tick_no_optimize_return(tick))
-
-
-# ----------------------------------------------------------------------------------------------
-# observation
-
-
-def _sustain(s):
-    return s if isinstance(s, int) else list(s)
-
-
-def obs_note(e):
-    return dict(
-        tick=e.tick,
-        ts=us(e.timestamp),
-        lanes=list(e.note.value),
-        sustain=_sustain(e.sustain),
-        longest=e.longest_sustain,
-        end_tick=e.end_tick,
-        end_ts=us(e.end_timestamp),
-        hopo=e.hopo_state.name,
-        sp=(e.star_power_data.star_power_event_index if e.star_power_data is not None else None),
-    )
-
-
-def obs_track(t):
-    lne = t.last_note_end_timestamp
-    return dict(
-        instrument=t.instrument.name,
-        difficulty=t.difficulty.name,
-        header_tag=t.header_tag,
-        notes=[obs_note(e) for e in t.note_events],
-        phrases=[dict(tick=e.tick, ts=us(e.timestamp), sustain=e.sustain, end_tick=e.end_tick) for e in t.star_power_events],
-        events=[dict(tick=e.tick, ts=us(e.timestamp), value=e.value) for e in t.track_events],
-        last_note_end=(None if lne is None else us(lne)),
-    )
-
-
-METADATA_FIELDS = (
-    "resolution offset player2 difficulty preview_start preview_end genre media_type name artist charter album "
-    "year music_stream guitar_stream rhythm_stream bass_stream drum_stream drum2_stream drum3_stream "
-    "drum4_stream vocal_stream keys_stream crowd_stream"
-).split()
-
-
-def obs_metadata(m):
-    d = {}
-    for f in METADATA_FIELDS:
-        v = getattr(m, f)
-        d[f] = v.name if f == "player2" and hasattr(v, "name") else v
-    return d
-
-
-def obs_sync(s):
-    return dict(
-        resolution=s.bpm_events.resolution,
-        bpm=[dict(tick=e.tick, ts=us(e.timestamp), bpm=float(e.bpm).hex()) for e in s.bpm_events],
-        ts=[dict(tick=e.tick, ts=us(e.timestamp), upper=e.upper_numeral, lower=e.lower_numeral) for e in s.time_signature_events],
-        anchors=[dict(tick=e.tick, ts=us(e.timestamp)) for e in s.anchor_events],
-    )
-
-
-def obs_global(g):
-    f = lambda L: [dict(tick=e.tick, ts=us(e.timestamp), value=e.value) for e in L]  # noqa: E731
-    return dict(text=f(g.text_events), section=f(g.section_events), lyric=f(g.lyric_events))
-
-
-def obs_tracks(chart):
-    out = {}
-    for ins, dd in chart.instrument_tracks.items():
-        for dif, t in dd.items():
-            out["%s/%s" % (ins.name, dif.name)] = obs_track(t)
-    return out
-
-
-def observe(chart):
-    """Full public observation as plain JSON-able data; the track map is a mapping (order-free)."""
-    return dict(
-        metadata=obs_metadata(chart.metadata),
-        sync=obs_sync(chart.sync_track),
-        globals=obs_global(chart.global_events_track),
-        tracks=obs_tracks(chart),
-        # instruments present as keys of the public map, even with no difficulty below them
-        instruments=sorted(i.name for i in chart.instrument_tracks),
-    )
-
-
-def all_events(chart):
-    """Every event object of a chart with a label, for time oracles."""
-    s = chart.sync_track
-    for e in s.bpm_events:
-        yield "B", e
-    for e in s.time_signature_events:
-        yield "TS", e
-    g = chart.global_events_track
-    for e in g.text_events:
-        yield "text", e
-    for e in g.section_events:
-        yield "section", e
-    for e in g.lyric_events:
-        yield "lyric", e
-    for dd in chart.instrument_tracks.values():
-        for t in dd.values():
-            for e in t.star_power_events:
-                yield "S", e
-            for e in t.track_events:
-                yield "E", e
-            for e in t.note_events:
-                yield "N", e
+    return us(chart.sync_track.bpm_events.timestamp_at_tick_no_optimize_return(tick))  # noqa: F405
